@@ -40,7 +40,7 @@ TEXT = {
         "note": ACT_NOTE + " 'At least once' is C04's liveness. 'Only the closure is loaded' is C09 (CFG unit).",
     },
     "C09": {
-        "level": "Proof, for every configuration and request: try_into_domain_targets returns Ok(m) only if every root is a key of m, every dependency (declared or implied by X.output) of every key is a key (closedness), m is keyed by each target's own id, every X.output producer is a build target; a missing project or target gives Err; a target that is its own ancestor gives Err; cleaning and the engine receive only the resolved map (the main block is outlined with the resolved map as its only view of the configuration). Not yet proved: termination of the recursion (decreases measure) and that every key is reachable from a root.",
+        "level": "Proof, for every configuration and request: try_into_domain_targets returns Ok(m) only if every root is a key of m, every dependency (declared or implied by X.output) of every key is a key (closedness), m is keyed by each target's own id, every X.output producer is a build target; a missing project or target gives Err; a target that is its own ancestor gives Err; cleaning and the engine receive only the resolved map (the main block is outlined with the resolved map as its only view of the configuration). The resolver terminates on every graph, cyclic or not (decreases measure: yaml targets not yet taken out of the configuration; Verus proves every recursive call strictly decreases it). Not proved: that every key is reachable from a root.",
         "note": "Assumed: transform_target's contract (id, parsed dependency lists, producers of X.output inputs; A-yaml), derived Hash/Eq/Clone, vstd std specs + get_mut/remove_entry, slice contains/concat stubs (A-std, A-all).",
     },
     "C10": {
